@@ -312,59 +312,119 @@ func (n *reNode) classHas(r rune) bool {
 	return in != n.neg
 }
 
-// match runs n at position pos and calls k with every end position until k
-// returns true.
-func (n *reNode) match(in []rune, pos int, k func(int) bool) bool {
+// posSet is a set of input positions 0..len(in), as a bitset.
+type posSet []uint64
+
+func newPosSet(n int) posSet    { return make(posSet, n/64+1) }
+func (b posSet) set(i int)      { b[i>>6] |= 1 << (uint(i) & 63) }
+func (b posSet) has(i int) bool { return b[i>>6]&(1<<(uint(i)&63)) != 0 }
+func (b posSet) empty() bool {
+	for _, w := range b {
+		if w != 0 {
+			return false
+		}
+	}
+	return true
+}
+func (b posSet) clone() posSet { return append(posSet(nil), b...) }
+func (b posSet) or(c posSet) {
+	for i := range b {
+		b[i] |= c[i]
+	}
+}
+func (b posSet) andNot(c posSet) {
+	for i := range b {
+		b[i] &^= c[i]
+	}
+}
+
+// ends returns the set of positions at which a match of n can end when it
+// starts at any position of from.  This is a position-set (NFA style)
+// evaluation: its cost is polynomial in the pattern and input sizes, with no
+// backtracking (the earlier continuation-passing matcher was exponential on
+// patterns such as (a*)*b).
+func (n *reNode) ends(in []rune, from posSet) posSet {
 	switch n.kind {
 	case reEmpty:
-		return k(pos)
-	case reLit:
-		return pos < len(in) && in[pos] == n.r && k(pos+1)
-	case reAny:
-		return pos < len(in) && in[pos] != '\n' && in[pos] != '\r' && k(pos+1)
-	case reClass:
-		return pos < len(in) && n.classHas(in[pos]) && k(pos+1)
+		return from
+	case reLit, reAny, reClass:
+		out := newPosSet(len(in))
+		for p := 0; p < len(in); p++ {
+			if !from.has(p) {
+				continue
+			}
+			c := in[p]
+			ok := false
+			switch n.kind {
+			case reLit:
+				ok = c == n.r
+			case reAny:
+				ok = c != '\n' && c != '\r'
+			default:
+				ok = n.classHas(c)
+			}
+			if ok {
+				out.set(p + 1)
+			}
+		}
+		return out
 	case reCat:
-		var step func(i, p int) bool
-		step = func(i, p int) bool {
-			if i == len(n.subs) {
-				return k(p)
-			}
-			return n.subs[i].match(in, p, func(q int) bool { return step(i+1, q) })
-		}
-		return step(0, pos)
-	case reAlt:
+		cur := from
 		for _, s := range n.subs {
-			if s.match(in, pos, k) {
-				return true
+			cur = s.ends(in, cur)
+			if cur.empty() {
+				return cur
 			}
 		}
-		return false
+		return cur
+	case reAlt:
+		out := newPosSet(len(in))
+		for _, s := range n.subs {
+			out.or(s.ends(in, from))
+		}
+		return out
 	case reRep:
-		var rep func(count, p int) bool
-		rep = func(count, p int) bool {
-			if count >= n.min && k(p) {
-				return true
+		sub := n.subs[0]
+		cur := from
+		for i := 0; i < n.min; i++ {
+			cur = sub.ends(in, cur)
+			if cur.empty() {
+				return cur
 			}
-			if n.max >= 0 && count >= n.max {
-				return false
-			}
-			return n.subs[0].match(in, p, func(q int) bool {
-				if q == p && count >= n.min {
-					return false // no progress
-				}
-				return rep(count+1, q)
-			})
 		}
-		return rep(0, pos)
+		res := cur.clone()
+		if n.max < 0 {
+			// closure: everything reachable by further repetitions
+			frontier := cur
+			for {
+				nxt := sub.ends(in, frontier).clone()
+				nxt.andNot(res)
+				if nxt.empty() {
+					break
+				}
+				res.or(nxt)
+				frontier = nxt
+			}
+			return res
+		}
+		for i := n.min; i < n.max; i++ {
+			cur = sub.ends(in, cur)
+			if cur.empty() {
+				break
+			}
+			res.or(cur)
+		}
+		return res
 	}
-	return false
+	return newPosSet(len(in))
 }
 
 // Match reports whether the whole of s is in the language.
 func (n *reNode) Match(s string) bool {
 	in := []rune(s)
-	return n.match(in, 0, func(p int) bool { return p == len(in) })
+	from := newPosSet(len(in))
+	from.set(0)
+	return n.ends(in, from).has(len(in))
 }
 
 // Sample draws a member of the language.
